@@ -31,8 +31,7 @@ SetOf(s) == {s[i] : i \in DOMAIN s}
 
 \* ======================================================================== domain
 InName(k)   == <<"a", "aa", "input">>[k]           \* k-th input of a node ("input" is also what Splicer/Splitter use)
-OName(o)    == <<"0", "b">>[o]                      \* "0" is Node.DEFAULT_OUTPUT; "b" is also a node name
-OutNames(k) == SubSeq(<<"0", "b">>, 1, k)
+\* output names: "0" is Node.DEFAULT_OUTPUT; the second output is "b" (also a node name) unless stated otherwise
 Code(i, o) == 4 * i + o                             \* <<parent index, output number>> as an orderable integer
 PI(c) == c \div 4
 PO(c) == c % 4
@@ -53,12 +52,14 @@ Terminal(sh, i) == \A j \in 1..sh.n : \A k \in DOMAIN sh.ins[j] : PI(sh.ins[j][k
 IsSource(sh, i) == sh.ins[i] = <<>>
 Terminals(sh) == {i \in 1..sh.n : Terminal(sh, i)}
 \* termOut: terminal nodes keep their outputs (as in graphs built by the fluent API) / have none (classic sinks)
-MkGraph(sh, names, pay, termOut) ==
+\* o2: the name of the second output of a two-output node
+MkGraphO(sh, names, pay, termOut, o2) ==
   [nodes |-> [i \in 1..sh.n |->
                 [name |-> names[i], payload |-> [k |-> "atom", id |-> pay[i]],
-                 outputs |-> OutNames(IF Terminal(sh, i) /\ ~termOut THEN 0 ELSE sh.outs[i]),
-                 inputs |-> [k \in 1..Len(sh.ins[i]) |-> <<InName(k), PI(sh.ins[i][k]), OName(PO(sh.ins[i][k]))>>]]],
+                 outputs |-> SubSeq(<<"0", o2>>, 1, IF Terminal(sh, i) /\ ~termOut THEN 0 ELSE sh.outs[i]),
+                 inputs |-> [k \in 1..Len(sh.ins[i]) |-> <<InName(k), PI(sh.ins[i][k]), <<"0", o2>>[PO(sh.ins[i][k])]>>]]],
    sinks |-> SetToSortSeq(Terminals(sh), LAMBDA x, y : x < y)]
+MkGraph(sh, names, pay, termOut) == MkGraphO(sh, names, pay, termOut, "b")
 
 Unique == <<"a", "aa", "a.a", "ab", "b", "main">>      \* pairwise different, sharing characters and prefixes
 Same   == <<"a", "a", "a", "a", "a", "a">>             \* "any names": nothing in copy/dedup/fuse may depend on names
@@ -72,6 +73,14 @@ FuseCases   == {[op |-> "fuse", cb |-> cb, g |-> MkGraph(sh, Unique, Ident, t)] 
 \* payloads from {1,2} (first node fixed to 1: the other half is symmetric) so that equal sub-expressions exist
 Pays(n) == {p \in [1..n -> 1..2] : p[1] = 1}
 DedupCasesF == UNION {{[op |-> "dedup", g |-> MkGraph(sh, Same, p, TRUE)] : p \in Pays(sh.n)} : sh \in BaseShapes}
+\* "any output name": outputs called like attributes of the Node class
+TwoOutShapes == {sh \in BaseShapes : \E i \in 1..sh.n : sh.outs[i] = 2 /\ ~Terminal(sh, i)}
+AttrNames == {"payload", "name"}
+AttrCasesC == {[op |-> "copy", g |-> MkGraphO(sh, Unique, Ident, TRUE, o2)] : sh \in TwoOutShapes, o2 \in AttrNames}
+AttrCasesF == {[op |-> "fuse", cb |-> "new", g |-> MkGraphO(sh, Unique, Ident, TRUE, o2)] : sh \in TwoOutShapes, o2 \in AttrNames}
+AttrCasesR == {[op |-> "rename", fn |-> "prefix", g |-> MkGraphO(sh, Unique, Ident, TRUE, o2)] : sh \in TwoOutShapes, o2 \in AttrNames}
+AttrCasesD == {[op |-> "dedup", g |-> MkGraphO(sh, Same, [i \in 1..sh.n |-> 1], TRUE, o2)] : sh \in TwoOutShapes, o2 \in AttrNames}
+AttrCasesS == {[op |-> "split", key |-> [i \in 1..sh.n |-> i % 2], g |-> MkGraphO(sh, Unique, Ident, TRUE, o2)] : sh \in TwoOutShapes, o2 \in AttrNames}
 KeyMaps(n) == {k \in [1..n -> (IF n <= Split3N THEN 0..2 ELSE 0..1)] : k[1] = 0}
 SplitCases  == UNION {{[op |-> "split", key |-> k, g |-> MkGraph(sh, Unique, Ident, sh.n % 2 = 0)] : k \in KeyMaps(sh.n)} : sh \in BaseShapes}
 
@@ -261,7 +270,9 @@ Post(c, r) == CASE c.op = "copy"   -> PostSame(c, r)
 
 \* ======================================================================== the two TLC passes
 Generate == JsonSerialize(IOEnv.CASES_FILE,
-               SetToSeq(CopyCases) \o SetToSeq(RenameCases) \o SetToSeq(FuseCases) \o SetToSeq(DedupCasesF) \o SetToSeq(SplitCases) \o SetToSeq(ExpandCases))
+               SetToSeq(CopyCases) \o SetToSeq(RenameCases) \o SetToSeq(FuseCases) \o SetToSeq(DedupCasesF) \o SetToSeq(SplitCases) \o SetToSeq(ExpandCases)
+               \o SetToSeq(AttrCasesC) \o SetToSeq(AttrCasesF) \o SetToSeq(AttrCasesR)
+               \o SetToSeq(AttrCasesD) \o SetToSeq(AttrCasesS))
 Judge ==
   LET cs == JsonDeserialize(IOEnv.CASES_FILE)
       rs == JsonDeserialize(IOEnv.RESULTS_FILE)
